@@ -849,7 +849,20 @@ class Session:
         elif cls == "invalid-base64":
             r = rq("POST", rng.choice(["/definitions/add", "/definitions/replace"]), {"content": rng.choice(["!!!not base64", "abc", "====", "Zm9v\u00e9", b64(m0.xml)[:-3] + "*"])})
         elif cls == "invalid-utf8-in-content":
-            r = rq("POST", rng.choice(["/definitions/add", "/definitions/replace"]), {"content": b64(rng.choice([b"\xff\xfe<definitions/>", m0.xml.encode()[:40] + b"\xc3\x28" + m0.xml.encode()[40:], b"\xed\xa0\x80"]))})
+            # also: an otherwise well-formed model (the stored echo model or another one) whose bad bytes sit inside an
+            # attribute value, a text node or a comment, where nothing but the UTF-8 decoding can object
+            base = (self.echo_model[0].xml if rng.random() < 0.5 else m0.xml).encode()
+            bad = rng.choice([b"\xff", b"\xc3\x28", b"\xed\xa0\x80", b"\xf8\x88\x80\x80\x80", b"\x80"])
+            inside = []
+            for marker in (b' id="', b' name="', b"<text>", b"<definitions "):
+                k = base.find(marker)
+                if k >= 0 and marker != b"<definitions ":
+                    inside.append(base[: k + len(marker)] + bad + base[k + len(marker):])
+            k = base.rfind(b"</definitions>")
+            if k >= 0:
+                inside.append(base[:k] + b"<!-- " + bad + b" -->" + base[k:])
+            variants = [b"\xff\xfe<definitions/>", m0.xml.encode()[:40] + b"\xc3\x28" + m0.xml.encode()[40:], b"\xed\xa0\x80"] + inside + inside
+            r = rq("POST", rng.choice(["/definitions/add", "/definitions/replace"]), {"content": b64(rng.choice(variants))})
         elif cls == "non-xml-content":
             r = rq("POST", rng.choice(["/definitions/add", "/definitions/replace"]), {"content": b64(rng.choice(["hello", "", "{}", "<a/>", "<definitions/>", "<?xml version=\"1.0\"?>", m0.xml.replace("namespace=", "nmspace="), m0.xml.replace(" name=\"A\"", ""), "\x00\x01\x02", "<definitions"]))})
         elif cls == "unknown-model":
